@@ -207,12 +207,72 @@ def load_hints():
 
 class SerialOb:
     """picklable obligation: SMT-LIB2 text instead of z3 ASTs (crosses process boundaries)"""
-    __slots__ = ("name", "kind", "func", "line", "note", "smt2", "smt2_qf", "slices")
+    __slots__ = ("name", "kind", "func", "line", "note", "smt2", "smt2_qf", "slices", "coi")
 
-    def __init__(self, name, kind, func, line, note, smt2, smt2_qf=None, slices=()):
+    def __init__(self, name, kind, func, line, note, smt2, smt2_qf=None, slices=(), coi=None):
         self.name, self.kind, self.func, self.line, self.note = name, kind, func, line, note
         self.smt2, self.smt2_qf = smt2, smt2_qf
         self.slices = list(slices)      # sub-sets of the hypotheses (unsat there is a proof), tried before the full query
+        self.coi = coi                  # cone-of-influence sub-set (see _coi_pick)
+
+
+_INFO_CACHE = {}
+
+
+def _hyp_info(e):
+    """(uninterpreted symbols, has quantifier, mentions a real-sorted term, number of nodes) of a formula"""
+    k = e.get_id()
+    r = _INFO_CACHE.get(k)
+    if r is not None:
+        return r
+    out, seen, stack = set(), set(), [e]
+    q = real = False
+    n = 0
+    while stack:
+        x = stack.pop()
+        i = x.get_id()
+        if i in seen:
+            continue
+        seen.add(i)
+        n += 1
+        if z3.is_quantifier(x):
+            q = True
+            stack.append(x.body())
+            continue
+        if z3.is_app(x):
+            if x.sort().kind() == z3.Z3_REAL_SORT:
+                real = True
+            if x.decl().kind() == z3.Z3_OP_UNINTERPRETED:
+                out.add(x.decl().name())
+            stack.extend(x.children())
+    if len(_INFO_CACHE) > 200000:
+        _INFO_CACHE.clear()
+    r = _INFO_CACHE[k] = (frozenset(out), q, real, n)
+    return r
+
+
+def _coi_pick(hyps, goal, maxfreq=12, rounds=3, small=100):
+    """cone of influence: hypotheses reachable from the goal through RARE symbols (symbols occurring in at most `maxfreq`
+    hypotheses: havoc constants, loop counters, ghost views of the moment), plus every small quantifier-free hypothesis
+    without real arithmetic (aliasing facts, allocation order, scalar relations).  A sub-set of the hypotheses: `unsat`
+    there is a proof of the obligation; anything else is inconclusive."""
+    import collections
+    infos = [_hyp_info(h) for h in hyps]
+    freq = collections.Counter(c for inf in infos for c in inf[0])
+    cur = set(_hyp_info(goal)[0])
+    picked = set()
+    for _ in range(rounds):
+        rare = {c for c in cur if freq[c] <= maxfreq}
+        new = [i for i, inf in enumerate(infos) if i not in picked and (inf[0] & rare)]
+        if not new:
+            break
+        for i in new:
+            picked.add(i)
+            cur |= infos[i][0]
+    for i, (sy, q, real, n) in enumerate(infos):
+        if not q and not real and n <= small:
+            picked.add(i)
+    return [hyps[i] for i in sorted(picked)]
 
 
 _SYM_CACHE = {}
@@ -252,6 +312,11 @@ def _array_symbols(e):
 def serialize(ob):
     if isinstance(ob, SerialOb):
         return ob
+    full = to_smt2(ob.hyps, ob.goal)
+    import hashlib
+    if _cache_has(hashlib.sha256(full.encode()).hexdigest()):
+        # this exact query is recorded as proved: the sub-queries of the pipeline are not needed
+        return SerialOb(ob.name, ob.kind, ob.func, ob.line, ob.note, full)
     quant = [has_quantifier(h) for h in ob.hyps]
     qf = [h for h, q in zip(ob.hyps, quant) if not q]
     t1 = None
@@ -299,7 +364,12 @@ def serialize(ob):
             slices.append(to_smt2(hy, ob.goal))
             for i in pick:
                 cur = cur | syms[i]
-    return SerialOb(ob.name, ob.kind, ob.func, ob.line, ob.note, to_smt2(ob.hyps, ob.goal), t1, slices)
+    coi = None
+    if nq and len(ob.hyps) > 40:
+        pk = _coi_pick(ob.hyps, ob.goal)
+        if len(pk) < len(ob.hyps):
+            coi = to_smt2(pk, ob.goal)
+    return SerialOb(ob.name, ob.kind, ob.func, ob.line, ob.note, full, t1, slices, coi)
 
 
 def serialize_cover(named):
@@ -373,6 +443,8 @@ def _try_stage(ob, stage, timeout_ms, tac):
                 return _solve(ob.slices[k], min(timeout_ms, 8000), tac, False, int(seed))[0] == "unsat"
         if stage == "inst":
             return _solve_instantiated(ob.smt2, min(timeout_ms, 20000)) == "unsat"
+        if stage == "coi" and getattr(ob, "coi", None):
+            return _solve_instantiated(ob.coi, 10000) == "unsat"
         if stage.startswith("full"):
             seed = int(stage[4:] or 0)
             return _solve(ob.smt2, timeout_ms, tac, False, seed)[0] == "unsat"
@@ -386,7 +458,7 @@ def _pipeline(ob, timeout_ms, tac, retry_ms, use_cvc5, hint=None):
     hypotheses -> cvc5 -> retry.  `unsat` on a subset of the hypotheses is a proof; `sat` only counts on the full set."""
     t0 = time.time()
     if hint and _try_stage(ob, hint, timeout_ms, tac):
-        return "proved", "z3+inst" if hint == "inst" else "z3", time.time() - t0, None, "", hint
+        return "proved", "z3+inst" if hint in ("inst", "coi") else "z3", time.time() - t0, None, "", hint
     r = _pipeline0(ob, timeout_ms, tac, retry_ms, use_cvc5)
     return r
 
@@ -398,6 +470,9 @@ def _pipeline0(ob, timeout_ms, tac, retry_ms, use_cvc5):
         r, model1, _, _ = _solve(ob.smt2_qf, timeout_ms, tac, True)
         if r == "unsat":
             return "proved", "z3", time.time() - t0, None, "", "qf"
+    if getattr(ob, "coi", None) and os.environ.get("PYVC_NO_INST") != "1":
+        if _solve_instantiated(ob.coi, 8000) == "unsat":
+            return "proved", "z3+inst", time.time() - t0, None, "", "coi"
     for k, sm in enumerate(ob.slices):
         for seed in (0, 1):
             r, _, _, _ = _solve(sm, min(timeout_ms, 4000), tac, False, seed)
@@ -466,8 +541,28 @@ def _cache_key(ob):
     return hashlib.sha256(ob.smt2.encode()).hexdigest()
 
 
+PROOF_CACHE_FILE = os.path.join(os.path.dirname(os.path.dirname(os.path.abspath(__file__))), "proof_cache.txt")
+_COMMITTED = None
+
+
+def _committed():
+    """proof_cache.txt (committed, never written by a check): sha256 of SMT-LIB queries that z3 answered `unsat`.  A check
+    still generates every verification condition from /repo's current source; a condition whose exact text is recorded is not
+    sent to the solver again (quick tier only - the thorough tier solves everything).  Changed code => changed text => solved."""
+    global _COMMITTED
+    if _COMMITTED is None:
+        try:
+            with open(PROOF_CACHE_FILE) as f:
+                _COMMITTED = set(l.strip() for l in f if l.strip() and not l.startswith("#"))
+        except OSError:
+            _COMMITTED = set()
+    return _COMMITTED
+
+
 def _cache_has(key):
-    return os.environ.get("PYVC_NO_CACHE") != "1" and os.path.exists(os.path.join(CACHE_DIR, key[:2], key))
+    if os.environ.get("PYVC_NO_CACHE") == "1":
+        return False
+    return key in _committed() or os.path.exists(os.path.join(CACHE_DIR, key[:2], key))
 
 
 def _cache_put(key):
